@@ -790,7 +790,7 @@ static sexp analyze_macro_once (sexp ctx, sexp x, sexp op, int depth) {
   if (sexp_pairp(sexp_car(tmp)) && sexp_pair_source(sexp_car(tmp))) {
     if (sexp_pairp(res))
       sexp_pair_source(res) = sexp_pair_source(sexp_car(tmp));
-    else if (sexp_exceptionp(res) && sexp_not(sexp_exception_source(x)))
+    else if (sexp_exceptionp(res) && sexp_not(sexp_exception_source(res)))
       sexp_exception_source(res) = sexp_pair_source(sexp_car(tmp));
   }
   sexp_gc_release1(ctx);
